@@ -833,6 +833,7 @@ def run_case(case, proj=False):
                 await zc.async_register_service(info)
             except Exception as ex:
                 ev[1] = "regfail:" + type(ex).__name__
+                ev.append(now())  # (when it was refused)
                 sstate[i] = "idle"
                 return
             ev[1] = "reg"
@@ -1410,14 +1411,21 @@ def oracle(case, obs):
             if got != want:
                 extra = sorted(set(got) - set(want))
                 miss = sorted(set(want) - set(got))
-                if extra and ("x", f["b"], extra[0]) not in seen:
-                    seen.add(("x", f["b"], extra[0]))
-                    cause = resurrection_cause(case, obs, extra[0], f["host"])
+                # (third review, point 3: EVERY extra / missing instance is judged, not the first one -- a known finding on one
+                # instance must not hide a fresh violation on another instance of the same browser)
+                for x0 in extra:
+                    if ("x", f["b"], x0) in seen:
+                        continue
+                    seen.add(("x", f["b"], x0))
+                    cause = resurrection_cause(case, obs, x0, f["host"])
                     v.append(("C07:not-removed:" + cause,
                               "browser %d on H%d still reports s%d %d ms after the last change although it is not registered (%s)"
-                              % (f["b"], f["host"], extra[0], after, cause)))
-                if miss and ("m", f["b"], miss[0]) not in seen:
-                    seen.add(("m", f["b"], miss[0]))
+                              % (f["b"], f["host"], x0, after, cause)))
+                for m0 in miss:
+                    if ("m", f["b"], m0) in seen:
+                        continue
+                    seen.add(("m", f["b"], m0))
+                    miss = [m0] + [x for x in miss if x != m0]
                     # was it reported (Added, after its last registration) and taken away again, or never reported?
                     last_reg = max([e[0] for e in tr if e[1] == "reg" and e[2] == miss[0]] or [0])
                     cbs = [e for e in tr if e[1] in ("add", "rem") and e[2] == f["b"] and e[3] == miss[0] and e[0] >= last_reg and e[0] <= ob["t"]]
@@ -1435,6 +1443,32 @@ def oracle(case, obs):
                 if ("b", f["b"], tuple(b)) not in seen:
                     seen.add(("b", f["b"], tuple(b)))
                     v.append(("C07:callback-" + b[0], "listener of browser %d got %s for %s at %d" % (f["b"], b[0], b[1], b[2])))
+    # refused registrations (third review, point 2): a refusal is legitimate only when the instance name was alive in the
+    # registering host's OWN cache while it probed -- a pointer record of that instance it had processed (another host's, or its own
+    # announcement / goodbye still looping back: a withdrawn record lives one more second) -- by the harness's account of the
+    # deliveries, not the library's cache.  Any other exception out of async_register_service is a violation outright
+    for e in obs.get("regfail", []):
+        if not e[1].startswith("regfail:"):
+            continue
+        what = e[1].split(":", 1)[1]
+        i, t_call, t_fail = e[2], e[0], (e[3] if len(e) > 3 else e[0] + 350)
+        if what != "NonUniqueNameException":
+            v.append(("C07:registration-raised:" + what, "async_register_service(s%d) called at %d raised %s at %d" % (i, t_call, what, t_fail)))
+            continue
+        h = svcs[i]["owner"]
+        alive_until = None
+        for x in tr:
+            if x[1] == "dlv" and x[4] == h and x[0] <= t_fail:
+                for it in x[6]:
+                    if it[0] == "p" and it[1] == i:
+                        if it[2] > 0:
+                            alive_until = x[0] + eff_ttl(it[2])
+                        elif alive_until is not None:
+                            alive_until = min(alive_until, x[0] + 1000)
+        if alive_until is None or alive_until < t_call:
+            v.append(("C07:registration-refused-without-a-conflict",
+                      "async_register_service(s%d) called on H%d at %d was refused (NonUniqueNameException) at %d although no pointer record of that "
+                      "instance was alive in the host's cache while it probed (last one handed to it lived until %s)" % (i, h, t_call, t_fail, alive_until)))
     # lookups from Added: judged when the instance was registered when Added fired and stayed so until the lookup ended
     # (an Added for an instance that is not registered is the resurrection reported above, not a lookup failure)
     unreg_times = {}
@@ -1582,8 +1616,56 @@ def lookup_wrong_cause(case, obs, lk, vs, allv):
             why = announcement_completes_before_its_txt(case, obs, lk["s"], bh, lk["t1"])
             if why:
                 return "announcement-completes-before-its-txt"
-            return "success-without-txt"
+            # ... and INCLUDES only what the link, the TTLs or a split the unchanged record order can produce did to a TXT the owner
+            # really advertised (third review, point 1: "no TXT reached the host" alone describes the wire, and a sender that
+            # transmits its TXT with TTL 0, or not at all, produces the same wire)
+            if f1_input_class(case, obs, lk, bh, name, held_txt):
+                return "success-without-txt"
+            return "txt-not-sent-as-registered"
     return ""
+
+
+def f1_input_class(case, obs, lk, host, name, held_txt):
+    """F1's input class, judged on the owner's SENDS against its registration.  Either (TTL asymmetry) the host had been handed the
+    TXT as registered -- positive TTL = the registered other_ttl, text of an advertised version -- and it has run out while the SRV /
+    address have not; or (split / loss / order) the owner did put such a TXT on the link, in the same message (the datagrams it sent
+    at one instant to one destination) as a datagram of that message the host had processed, and the TXT's own datagram had not been
+    processed by the host when the lookup returned"""
+    from zeroconf import DNSIncoming
+    from zeroconf._dns import DNSText
+
+    s = lk["s"]
+    sv = case["svcs"][s]
+    ttls = {sv.get("other_ttl") or 4500} | {o[3]["other_ttl"] for o in case["ops"] if o[1] == "update" and o[2] == s and len(o) > 3
+                                             and isinstance(o[3], dict) and o[3].get("other_ttl")}
+    texts = {x["txt"] for x in obs["versions"][s] if x["t"] <= lk["t1"]}
+
+    def as_registered(r):
+        return isinstance(r, DNSText) and r.name.lower() == name and r.ttl in ttls and r.text.hex() in texts
+
+    if held_txt and as_registered(held_txt[-1][1]) and held_txt[-1][0] + 1000 * held_txt[-1][1].ttl <= lk["t1"]:
+        return True
+    ign = {x[0] for x in obs.get("ignored", [])}
+    processed = {e[2] for pos, e in enumerate(obs["trace"]) if e[1] == "dlv" and e[4] == host and e[0] <= lk["t1"] and pos not in ign}
+    owner = sv["owner"]
+    trains = {}
+    for e in obs["trace"]:
+        if e[1] == "send" and e[2] == owner and e[0] <= lk["t1"]:
+            trains.setdefault((e[0], e[4], obs["datagrams"][e[3]][2]), []).append(e[3])
+    memo = obs.setdefault("_parsed", {})
+    for ds in trains.values():
+        if not any(d in processed for d in ds):
+            continue
+        for d in ds:
+            if d in processed:
+                continue
+            recs = memo.get(d)
+            if recs is None:
+                m = DNSIncoming(bytes.fromhex(obs["datagrams"][d][4]))
+                recs = memo[d] = [] if (not m.valid or m.is_query()) else m.answers()
+            if any(as_registered(r) for r in recs):
+                return True
+    return False
 
 
 def announcement_completes_before_its_txt(case, obs, s, host, t_hi):
